@@ -10,7 +10,7 @@ SCHEMA = "/root/.vp/EVIDENCE.schema.json"
 
 def merge(shards):
     m = {"evaluations": 0, "counters": {}, "sets": {}, "distinct": set(), "samples": [],
-         "violations": [], "unreached": set(), "info": {}, "problems": [], "shard_wall_s": [],
+         "violations": [], "unreached": set(), "reached": set(), "info": {}, "problems": [], "shard_wall_s": [],
          "expired_shards": 0}
     for i, s in enumerate(shards):
         st = s.get("status")
@@ -27,12 +27,14 @@ def merge(shards):
                 m["samples"].append(x)
         m["violations"].extend(s.get("violations", []))
         m["unreached"].update(s.get("unreached", []))
+        m["reached"].update(s.get("reached", []))
         for k, v in s.get("info", {}).items():
             m["info"].setdefault(k, v)
         if "wall_s" in s:
             m["shard_wall_s"].append(round(s["wall_s"], 2))
         if s.get("expired"):
             m["expired_shards"] += 1
+    m["unreached"] -= m["reached"]  # a monitor is unreached only if no shard reached it
     return m
 
 
